@@ -1,5 +1,6 @@
 import Noodles.Basic.Wire
 import Noodles.Fasta.Model
+import Noodles.Fasta.DriverC11More
 /-! Line-protocol handler for the FASTA/FASTQ model (`c11 …`). -/
 namespace Noodles.Fasta
 open Noodles.Wire
@@ -87,6 +88,6 @@ def handleC11 : List String → String
           s!"{hex r.name}:{r.length}:{r.sequenceOffset}:{r.lineBases}:{r.lineWidth}:{r.qualityOffset}")
       | .error e => errStr e
     | none => "bad-op"
-  | _ => "bad-op"
+  | ws => (More.handleC11More ws).getD "bad-op"
 
 end Noodles.Fasta
